@@ -189,6 +189,27 @@ def c16(seed, n, pool=None, processes=3):
         must = ['Into'] if i % 2 == 0 and 'Into' in pool else None
         c = gen.gen_case('c16-%d-%d' % (seed, i), 0, pool, want_fault=(i % 3 == 0), must=must)
         cases.append(('c16-%d' % i, c))
+    # a fixed grid of accepted and refused requests for every trait alone and beside its companion: the diagnostics
+    # (usage hints, ...) of one request must not depend on which configuration of the same handler ran earlier
+    class _Txt:
+        def __init__(self, t): self.t = t
+        def rust(self): return self.t
+    base = {'Into': 'Into(u8)'}
+    sets = [[t] for t in gen.ALL_TRAITS] + [['PartialEq', 'Eq'], ['PartialOrd', 'Ord'], ['Clone', 'Copy'], ['Deref', 'DerefMut']]
+    gk = 0
+    for S in sets:
+        ok = ', '.join(base.get(t, t) for t in S)
+        variants = [ok]
+        for t in S:
+            for bad in ('%s = 1', '%s(foo)', '%s(bound = 3)', '%s(bound(T: Copy), bound = false)'):
+                variants.append(', '.join((bad % x) if x == t else base.get(x, x) for x in S))
+        for a in variants:
+            for body in ('struct S<T> { a: T }', 'enum E<T> { #[educe(Default)] A(T), B }' if 'Default' in S else 'enum E<T> { A(T) }'):
+                cases.append(('c16g-%d' % gk, _Txt('#[educe(%s)]\n%s' % (a, body)))); gk += 1
+        for t in S:
+            for where in ('struct S<T> { #[educe(%s)] a: T }', 'enum E<T> { #[educe(%s)] A(T) }', 'enum E<T> { A(#[educe(%s)] T) }'):
+                for bad in ('%s = 1', '%s(foo)', '%s(bound(*))', '%s(ignore, ignore)'):
+                    cases.append(('c16g-%d' % gk, _Txt('#[educe(%s)]\n%s' % (ok, where % (bad % t))))); gk += 1
     src = [(i, c.rust()) for i, c in cases]
     runs = [k1.run_real(src, repeat=3)] + [k1.run_real(src) for _ in range(processes - 1)]
     # history: the same inputs in another order in one process ("for all prior expansions in the same process")
